@@ -10,6 +10,7 @@ TD = 'template_data'
 
 
 def register(reg):
+    register_sections(reg)
     add = reg.add
     LL = ListT(ListT(VAL))
     from pyvc.engine import BITS
@@ -79,6 +80,26 @@ def register(reg):
                  serves=['C10'],
                  note='refuses an index outside 0..n-1; data section = the selected subsets in increasing order, each once (index maps of the '
                       'selection as ghosts); n_subsets = number of distinct indices; everything else identical; the source message is not written'))
+
+
+def register_sections(reg):
+    """BufrSection.get_parameter_offset (C04): where a parameter starts inside its section"""
+    add = reg.add
+    P = 'self._params'
+    add(Contract(M + 'BufrSection.get_parameter_offset', {'self': SEC, 'parameter_name': STR}, returns=INT,
+                 requires=['self != None', 'self._params != None',
+                           # parameter names are the keys of the section's namespace: pairwise distinct
+                           'forall(q, 0, len(%s), forall(q2, q + 1, len(%s), select(%s, q).name != select(%s, q2).name))' % (P, P, P, P)],
+                 modifies=[],
+                 loops={0: Loop(invariants=['nbits_offset == poff(self, _i0)',
+                                            'forall(q, 0, _i0, select(%s, q).name != parameter_name)' % P],
+                                locals={'parameter': PAR})},
+                 ensures=['phas(self, parameter_name)',
+                          # the offset is the total width of the parameters that precede it
+                          'result == poff(self, pindex(self, parameter_name))'],
+                 raises={'PyBufrKitError': 'not phas(self, parameter_name)'},
+                 must_raise=[('PyBufrKitError', 'not phas(self, parameter_name)')],
+                 serves=['C04'], note='bit offset of a parameter = sum of the widths of the parameters before it; unknown name refused'))
 
 
 # ---- section layouts (the JSON definition files) as static facts about a configured section -------------------------------------
